@@ -25,6 +25,7 @@ RULE = ('(a) enumeration of defeat placements: 24 defeat-capable constructs x 7 
         'non-trivial = at least one speculative halt was executed and averted in the run; distinct by hash of '
         '(source, args, word, unchecked)')
 ASSUMPTIONS = common.ISA_ASSUMPTIONS[:3] + ['a run that exceeds the step budget without repeating a state is inconclusive, not a pass']
+REQUIRED_HIDC_FUNCTIONS = ['codegen/generator:CodeGen.goto', 'codegen/generator:CodeGen.bool_expr_branch']     # M-COV: deciding code never entered => inconclusive
 MIN_NONTRIVIAL = {'quick': 500, 'thorough': 5000}
 
 EXAMPLE_ARGS = {
